@@ -4,71 +4,63 @@ mod world;
 mod hooks;
 mod actors;
 mod netsim;
+mod framework;
+mod scenario;
+mod props;
 
-use std::net::SocketAddr;
-use sozu_command_lib::{
-    config::ListenerBuilder,
-    proto::command::{request::RequestType, ActivateListener, AddBackend, Cluster, ListenerType, LoadBalancingParams, PathRule, Request, RequestHttpFrontend, RulePosition},
-    scm_socket::Listeners, state::ConfigState,
-};
-use actors::{h1::*, master::*, Pace};
-use prng::Prng;
-use world::*;
+use framework::Tier;
 
-fn smoke(seed: u64, log: bool) -> (u64, String) {
-    netsim::on_fresh_thread(move || {
-        let mut rng = Prng::derive(seed, "plan");
-        let mut w = World::new(seed, netsim::default_sched(&mut rng, false));
-        w.log_on = log;
-        let knobs = netsim::Knobs::default();
-        let front: SocketAddr = "10.0.0.1:80".parse().unwrap();
-        let back: SocketAddr = "10.1.0.1:8000".parse().unwrap();
-        let mut cid = 0; let mut bid = 0;
-        let (end, mid) = netsim::run_worker(&mut w, knobs.server_config(), ConfigState::new(), Listeners::default(), |w, m| {
-            m.send_all(vec![
-                RequestType::AddHttpListener(ListenerBuilder::new_http(front.into()).to_http(None).unwrap()).into(),
-                RequestType::ActivateListener(ActivateListener { address: front.into(), proxy: ListenerType::Http.into(), from_scm: false }).into(),
-                RequestType::AddCluster(Cluster { cluster_id: "c0".into(), ..Default::default() }).into(),
-                RequestType::AddHttpFrontend(RequestHttpFrontend { cluster_id: Some("c0".into()), address: front.into(), hostname: "a.test".into(), path: PathRule::prefix("/".to_string()), position: RulePosition::Tree.into(), ..Default::default() }).into(),
-                RequestType::AddBackend(AddBackend { cluster_id: "c0".into(), backend_id: "b0".into(), address: back.into(), load_balancing_parameters: Some(LoadBalancingParams::default()), sticky_id: None, backup: None }).into(),
-            ]);
-            m.push(MOp::Barrier);
-            m.push(MOp::SetBoard("configured".into(), 1));
-            m.push(MOp::WaitBoard("clients_done".into(), 1));
-            m.push(MOp::HardStop);
-            w.topo.insert(back, ConnectMode::Listen { delay_ns: 0 });
-            let mut resp = std::collections::BTreeMap::new();
-            resp.insert(1, RespSpec::ok(BodySpec::Cl(20000)));
-            resp.insert(2, RespSpec::ok(BodySpec::Chunked(vec![5, 16384, 1])));
-            bid = w.add_actor(Box::new(H1Backend::new(BackendPlan { name: "b0".into(), addr: back, pace: Pace::random(&mut rng, 40000), responses: resp, default: RespSpec::ok(BodySpec::Cl(3)), close_on_accept: vec![], listen_from_ns: 0, listen_until_ns: 0 }, Prng::derive(seed, "b0"))));
-            let mut r1 = ReqSpec::get(1, "a.test", "/one"); r1.method = "POST".into(); r1.body = BodySpec::Chunked(vec![100, 17000]);
-            let r2 = ReqSpec::get(2, "a.test", "/two");
-            cid = w.add_actor(Box::new(H1Client::new(ClientPlan { name: "cl0".into(), src: "192.0.2.7:40001".parse().unwrap(), dst: front, start_ns: 5 * MS, pace: Pace::random(&mut rng, 40000), pipeline: false, requests: vec![r1, r2], abort: None, sndbuf: None, think_ns: 0, linger_ns: 0 }, Prng::derive(seed, "cl0"))));
-        });
-        let mut out = String::new();
-        out += &format!("end: panic={:?} abort={:?} boot={:?}\n", end.panicked, end.aborted, end.boot_error);
-        let m: &Master = w.actor_ref(mid);
-        out += &format!("master: sent={} finals={:?} eof={}\n", m.data.sent.len(), m.data.finals, m.data.eof);
-        let c: &H1Client = w.actor_ref(cid);
-        for r in c.responses() { out += &format!("resp: {} len={} ok={} complete={} mode={:?}\n", r.start, r.body_len, r.body_ok(), r.complete, r.mode); }
-        out += &format!("client rec: {:?}\n", c.rec);
-        let b: &H1Backend = w.actor_ref(bid);
-        for rec in b.all_records() { for q in &rec.requests { out += &format!("backend got: {} len={} ok={} complete={}\n{}", q.start, q.body_len, q.body_ok(), q.complete, String::from_utf8_lossy(&q.raw_head)); } }
-        out += &format!("stats: {}\n", serde_json::to_string(&w.stats).unwrap());
-        if log { for l in &w.log { out += l; out += "\n"; } }
-        (w.trace.0, out)
-    })
+fn usage() -> ! {
+    eprintln!("usage: simk check <ID> [--tier quick|thorough] [--seed N] [--jobs N] [--runs N]\n       simk replay <ID> <file>\n       simk work <ID> <tier> <seed> <from> <to>\n       simk runplan <ID> <file>\n       simk show <ID> <seed> [tier]   (run one seeded plan with logging)");
+    std::process::exit(2)
 }
 
 fn main() {
     let args: Vec<String> = std::env::args().collect();
-    let seed: u64 = args.get(1).and_then(|s| s.parse().ok()).unwrap_or(1);
-    let t0 = std::time::Instant::now();
-    println!("fds before: {:?}", netsim::open_fds());
-    let (h, out) = smoke(seed, true);
-    println!("{out}hash={h:016x} wall={:?}", t0.elapsed());
-    let (h2, out2) = smoke(seed, true);
-    println!("again hash={h2:016x}");
-    println!("fds after: {:?}", netsim::open_fds());
-    std::fs::write("/tmp/o1.txt", &out).unwrap(); std::fs::write("/tmp/o2.txt", &out2).unwrap();
+    if args.len() < 3 { usage(); }
+    let cmd = args[1].as_str();
+    let id = args[2].as_str();
+    let Some(prop) = props::get(id) else { eprintln!("unknown property {id}"); std::process::exit(2) };
+    let opt = |name: &str| -> Option<String> { args.iter().position(|a| a == name).and_then(|i| args.get(i + 1).cloned()) };
+    let tier_of = |s: &str| if s == "thorough" { Tier::Thorough } else { Tier::Quick };
+    match cmd {
+        "check" => {
+            let tier = tier_of(&opt("--tier").or_else(|| std::env::var("VERIF_TIER").ok()).unwrap_or_else(|| "quick".into()));
+            let seed: u64 = opt("--seed").or_else(|| std::env::var("VERIF_SEED").ok()).and_then(|s| s.parse().ok()).unwrap_or(1);
+            let jobs: usize = opt("--jobs").and_then(|s| s.parse().ok()).unwrap_or(16);
+            let runs: Option<u64> = opt("--runs").and_then(|s| s.parse().ok());
+            let out = framework::check(prop.as_ref(), tier, seed, jobs, runs);
+            std::process::exit(out.exit);
+        }
+        "work" => {
+            if args.len() < 7 { usage(); }
+            framework::work(prop.as_ref(), tier_of(&args[3]), args[4].parse().unwrap(), args[5].parse().unwrap(), args[6].parse().unwrap());
+        }
+        "runplan" => {
+            let rep = framework::run_plan_file(prop.as_ref(), &args[3]);
+            println!("{}", serde_json::to_string(&rep).unwrap());
+        }
+        "replay" => {
+            std::process::exit(framework::replay(prop.as_ref(), &args[3]));
+        }
+        "debug" => {
+            let s = std::fs::read_to_string(&args[3]).expect("read");
+            let v: serde_json::Value = serde_json::from_str(&s).expect("json");
+            let plan = v.get("plan").cloned().unwrap_or(v);
+            println!("{}", prop.debug_plan(&plan));
+        }
+        "plan" => {
+            let seed: u64 = args.get(3).and_then(|s| s.parse().ok()).unwrap_or(1);
+            let tier = tier_of(args.get(4).map(|s| s.as_str()).unwrap_or("quick"));
+            println!("{}", serde_json::to_string(&serde_json::json!({"plan": prop.gen_plan(seed, tier)})).unwrap());
+        }
+        "show" => {
+            let seed: u64 = args.get(3).and_then(|s| s.parse().ok()).unwrap_or(1);
+            let tier = tier_of(args.get(4).map(|s| s.as_str()).unwrap_or("quick"));
+            let plan = prop.gen_plan(seed, tier);
+            let rep = prop.run_plan(&plan);
+            println!("{}", serde_json::to_string_pretty(&rep).unwrap());
+        }
+        _ => usage(),
+    }
 }
